@@ -100,13 +100,14 @@ def run(ctx):
         c.set_header_cfg(edges, {"extreme": True})
         r = c.replay(ctx, "kb", edges, walks=walks, walklen=wl, allhist=ah)
         c.log("    with saliences i32::MIN / 0 / i32::MAX: %d behaviours, %d failures" % (r["behaviours"], r["failures_n"]))
+    c.order_leg(ctx, "Gen_FireOrder_kb.cfg", "listing order of a large knowledge base")
     concurrent(ctx, 2000 if q else 50000, screened=60000 if q else 3000000)
     ctx.cov["exhaustive"] = True
     ctx.cov["rule"] = ("sequential: the complete reachable state graph of KnowledgeBase.tla (3 or 4 names x 3 saliences x enable "
                        "flags) is dumped by TLC and every (state,op) transition, all op sequences to the all-histories depth and "
                        "seeded walks to 8 ops are replayed on the real KnowledgeBase (list order, get_rule per name, names, count, "
                        "by-salience, snapshot, statistics, version delta compared after every op), and again with the saliences relabelled "
-                       "i32::MIN / 0 / i32::MAX; concurrent: 3 threads x 4 ops histories (random mix incl. clear; a clear-heavy family; a "
+                       "i32::MIN / 0 / i32::MAX; FireOrder.tla cases: the listing after 1..55 add_rule calls under eight salience patterns; concurrent: 3 threads x 4 ops histories (random mix incl. clear; a clear-heavy family; a "
                        "single-name contention family) recorded from the real object, each checked by TLC for a linearization that also "
                        "explains the quiescent read-back (listing, lookup of every name, count); a much larger number of histories is "
                        "screened at quiescence only and any incoherent one is handed to TLC (distinct_nontrivial adds the histories in "
@@ -122,5 +123,5 @@ def replay(ctx, path):
         print("concurrent history (not deterministic to replay); recorded history:")
         print(json.dumps(f.get("actual"))[:3000])
         return 1
-    p = subprocess.run([c.VH, "replay-one", "kb", path])
+    p = subprocess.run([c.VH, "replay-one", "fireorder" if f.get("model") == "fireorder" else "kb", path])
     return 1 if p.returncode == 1 else (0 if p.returncode == 0 else 2)
